@@ -21,7 +21,9 @@ Open Scope Z_scope.
 KINDS = ["int", "str", "list", "dict", "spec", "meth", "clsfun", "func", "class", "module", "klist", "kset", "opt"]
 ANN = {"int": "int", "str": "str", "list": "list", "dict": "dict", "spec": "Inner", "opt": "Optional[int]",
        "klist": "KeyedList[Keyed, str]", "kset": "KeyedSet[Keyed, str]"}      # every other kind: Any
-CLS_ID = {"Inner": 0, "Base": 1, "Sub": 2, "Plain": 3, "Keyed": 4, "Frozen": 5, "Shared": 6}
+CLS_ID = {"Inner": 0, "Base": 1, "Sub": 2, "Plain": 3, "Keyed": 4, "Frozen": 5, "Shared": 6,
+          "Leaf": 7, "PlainSub": 8}      # Leaf: spec subclass of Sub; PlainSub: plain subclass of Sub (second level)
+FAMILY_CLASSES = ("Base", "Sub", "Plain", "Leaf", "PlainSub")
 LONG = "ab" * 60
 
 
@@ -33,7 +35,7 @@ def attr_id(name):
         return 40
     if name == "f0":
         return 45
-    base = {"a": 10, "b": 30}[name[0]]
+    base = {"a": 10, "b": 30, "c": 35}[name[0]]
     return base + int(name[1:])
 
 
@@ -68,31 +70,41 @@ def decl(a):
 
 
 REDEFAULT_VALUE = {"int": "7", "str": "'z'", "list": "[9]", "dict": "{'z': 9}", "spec": "Inner(p=9)"}
+LEAF_REDEFAULT_VALUE = {"int": "8", "str": "'y'", "list": "[8]", "dict": "{'y': 8}", "spec": "Inner(p=8)"}
 
 
 def attrs_of(fam, cname):
-    """the attributes of Base / Sub / Plain AS DECLARED in the hierarchy (name, kind, flags,
-    default): a spec subclass that only re-assigns the default of an inherited attribute
+    """the attributes of Base / Sub / Plain / Leaf / PlainSub AS DECLARED in the hierarchy (name, kind,
+    flags, default): a spec subclass that only re-assigns the default of an inherited attribute
     (`a0 = 7`) keeps the owner's flags; an annotated re-declaration (`a0: int = 7`) is a new
-    declaration with default flags; `a0: int = Attr(...)` declares new flags."""
+    declaration with default flags; `a0: int = Attr(...)` declares new flags.  Leaf (spec subclass of
+    Sub) may again re-default / re-declare what it inherits from Base or Sub."""
     out = [dict(a) for a in fam["attrs"]]
-    if cname != "Sub":
+    if cname not in ("Sub", "Leaf", "PlainSub"):
         return out
-    for rd in fam.get("sub_redefault", []):
-        for a in out:
-            if a["name"] == rd["name"]:
-                a["default"] = True
-                if rd["form"] == "annot":
-                    a.update(compare=True, repr=True, init=True)
-                elif rd["form"] == "attr":
-                    a.update(compare=rd["compare"], repr=rd["repr"], init=rd["init"])
-    return out + [dict(a) for a in fam.get("sub_attrs", [])]
+
+    def apply(rds):
+        for rd in rds:
+            for a in out:
+                if a["name"] == rd["name"]:
+                    a["default"] = True
+                    if rd["form"] == "annot":
+                        a.update(compare=True, repr=True, init=True)
+                    elif rd["form"] == "attr":
+                        a.update(compare=rd["compare"], repr=rd["repr"], init=rd["init"])
+
+    apply(fam.get("sub_redefault", []))
+    out += [dict(a) for a in fam.get("sub_attrs", [])]
+    if cname != "Leaf":
+        return out
+    apply(fam.get("leaf_redefault", []))
+    return out + [dict(a) for a in fam.get("leaf_attrs", [])]
 
 
-def redefault_decl(fam, rd):
-    a = next(x for x in fam["attrs"] if x["name"] == rd["name"])
+def redefault_decl(fam, rd, leaf=False):
+    a = next(x for x in fam["attrs"] + fam.get("sub_attrs", []) if x["name"] == rd["name"])
     k, n = a["kind"], rd["name"]
-    v = REDEFAULT_VALUE.get(k, "0")
+    v = LEAF_REDEFAULT_VALUE.get(k, "5") if leaf else REDEFAULT_VALUE.get(k, "0")
     ann = ANN.get(k, "Any")
     if rd["form"] == "plain":
         return f"    {n} = {v}"
@@ -128,9 +140,25 @@ def family_source(fam):
     if not fam.get("sub_attrs") and not fam.get("sub_redefault"):
         src += ["    pass"]
     src += ["class Plain(Base):", "    pass"]
+    src += ["@spec_class", "class Leaf(Sub):"]
+    for rd in fam.get("leaf_redefault", []):
+        src.append(redefault_decl(fam, rd, leaf=True))
+    for a in fam.get("leaf_attrs", []):
+        src += decl(a)
+    if not fam.get("leaf_attrs") and not fam.get("leaf_redefault"):
+        src += ["    pass"]
+    src += ["class PlainSub(Sub):", "    pass"]
     src += ["@spec_class(frozen=True)", "class Frozen:", "    f0: Any = None"]
     src += ["@spec_class(do_not_copy=True)", "class Shared:", "    f0: Any = None"]
     return "\n".join(src) + "\n"
+
+
+class BuildError(Exception):
+    """the library raised while an instance of a generated class was being built"""
+
+    def __init__(self, state, step, exc):
+        super().__init__(f"{step} raised {type(exc).__name__}: {exc}"[:300])
+        self.state, self.step, self.exc = state, step, exc
 
 
 class Family:
@@ -204,18 +232,31 @@ class Family:
         raise AssertionError(r)
 
     def instance(self, st):
-        if st["cls"] in ("Frozen", "Shared"):           # frozen: state only through the constructor
-            return self.classes[st["cls"]](**{n: self.build(r) for n, r in st["attrs"].items()})
-        x = self.classes[st["cls"]]()
-        for name, r in st["attrs"].items():
-            if r[0] in ("default", "missing"):
-                continue
-            if r[0] == "deleted":
-                setattr(x, name, self.build(r[1], x))
-                delattr(x, name)
-                continue
-            setattr(x, name, self.build(r, x))
-        return x
+        """build the instance a state recipe describes.  An exception raised by the LIBRARY on the way
+        (constructor, attribute assignment / deletion) is an outcome of the case, not of the harness:
+        it is re-raised as BuildError naming the step."""
+        step = f"{st['cls']}()"
+        try:
+            if st["cls"] in ("Frozen", "Shared"):           # frozen: state only through the constructor
+                kw = {n: self.build(r) for n, r in st["attrs"].items()}
+                step = f"{st['cls']}(**{sorted(kw)})"
+                return self.classes[st["cls"]](**kw)
+            x = self.classes[st["cls"]]()
+            for name, r in st["attrs"].items():
+                if r[0] in ("default", "missing"):
+                    continue
+                if r[0] == "deleted":
+                    step = f"x.{name} = <{r[1][0]}>; del x.{name}"
+                    setattr(x, name, self.build(r[1], x))
+                    delattr(x, name)
+                    continue
+                step = f"x.{name} = <{r[0]}>"
+                setattr(x, name, self.build(r, x))
+            return x
+        except AssertionError:
+            raise
+        except Exception as e:
+            raise BuildError(st, step, e) from e
 
     # -- encoding to Coq terms (trees)
     def is_spec(self, v):
@@ -261,7 +302,7 @@ class Family:
         anc = [CLS_ID[self.by_cls[b]] for b in cls.__mro__[1:] if b in self.by_cls]
         # compare / repr / init are what the hierarchy DECLARES (the oracle must not trust
         # the metadata the library built); defaults and do_not_copy are read back
-        declared = {a["name"]: a for a in attrs_of(self.desc, cname)} if cname in ("Base", "Sub", "Plain") else {}
+        declared = {a["name"]: a for a in attrs_of(self.desc, cname)} if cname in FAMILY_CLASSES else {}
         attrs = []
         for n, sp in self.attr_specs(cname).items():
             dv = sp.lookup_default_value(cls)
@@ -294,7 +335,7 @@ class Family:
 
     def check_table(self):
         """the metadata the implementation resolved must be what the hierarchy declares"""
-        for cname in ("Base", "Sub", "Plain"):
+        for cname in FAMILY_CLASSES:
             dec = attrs_of(self.desc, cname)
             got = self.attr_specs(cname)
             if list(got) != [a["name"] for a in dec]:
@@ -339,7 +380,10 @@ def build_graph(F, g):
     objs = [None] * len(nodes)
     for i, nd in enumerate(nodes):
         if nd[0] == "inst":
-            objs[i] = F.classes[nd[1]]() if nd[1] != "Keyed" else F.classes["Keyed"](k=0)
+            try:
+                objs[i] = F.classes[nd[1]]() if nd[1] != "Keyed" else F.classes["Keyed"](k=0)
+            except Exception as e:
+                raise BuildError({"cls": nd[1], "attrs": {}}, f"{nd[1]}()", e) from e
         elif nd[0] == "list":
             objs[i] = []
         elif nd[0] == "dict":
@@ -645,8 +689,31 @@ def robs_term(o):
 
 
 # ------------------------------------------------------------------ running one case
+BUILD_KEY = "instance cannot be built"
+FAMILY_KEY = "class family cannot be defined"
+
+
+def is_build_failure(obs):
+    return isinstance(obs, dict) and (BUILD_KEY in obs or FAMILY_KEY in obs)
+
+
 def run_case(F, case):
-    """-> (check function, Coq term, observation for the report)"""
+    """-> (check function, Coq term, observation for the report).  An exception of the library while
+    an instance of the case is BUILT is the case's outcome (python-side verdict 2: every coherence law
+    of the property presupposes that instances of a generated class can be constructed, and
+    re-construction from own attribute values must succeed); any other unexpected exception is
+    reported for this case (verdict 1, no failing input claimed) -- the run goes on."""
+    try:
+        return run_case0(F, case)
+    except BuildError as e:
+        return "py", 2, {BUILD_KEY: str(e), "state": json.dumps(e.state)[:300]}
+    except RecursionError as e:
+        return "py", 1, {"harness": f"RecursionError while running the case: {e}"[:300]}
+    except Exception as e:
+        return "py", 1, {"harness": f"{type(e).__name__} while running / encoding the case: {e}"[:300]}
+
+
+def run_case0(F, case):
     k = case["kind"]
     ct = f"ct_{case['fam']}"
     if k == "eq":
@@ -664,7 +731,7 @@ def run_case(F, case):
                 y = copy.deepcopy(x)
             else:
                 cn = case["a"]["cls"]
-                if cn in ("Base", "Sub", "Plain"):
+                if cn in FAMILY_CLASSES:
                     inits = [a["name"] for a in attrs_of(F.desc, cn) if a.get("init", True)]
                 else:
                     inits = [n for n, sp in F.attr_specs(cn).items() if sp.init]
@@ -767,25 +834,39 @@ def evaluate(fams, cases, tag="c", shard=250):
     """fams: {fam id: description}; returns ([(case index, code, observation)], logs)"""
     built, ctdef = {}, {}
     logs = []
+    broken = {}
     for fid in sorted({c["fam"] for c in cases}):
-        F = Family(fams[fid])
+        try:
+            F = Family(fams[fid])
+        except Exception as e:            # the library rejects a class family of the grammar
+            broken[fid] = (2, {FAMILY_KEY: f"{type(e).__name__}: {e}"[:300]})
+            continue
+        try:
+            ctdef[fid] = f"Definition ct_{fid} : list cls := {F.ct_term()}."
+            bad = F.check_table()
+        except Exception as e:
+            broken[fid] = (1, {"harness": f"{type(e).__name__} while encoding the class table: {e}"[:300]})
+            continue
         built[fid] = F
-        ctdef[fid] = f"Definition ct_{fid} : list cls := {F.ct_term()}."
-        bad = F.check_table()
         if bad:
             logs.append(f"class table of family {fid} differs from its description: {bad}")
     groups = {}
     pyside = []
     for i, c in enumerate(cases):
+        if c["fam"] in broken:
+            pyside.append((i,) + broken[c["fam"]])
+            continue
         fn, term, obs = run_case(built[c["fam"]], c)
         if fn == "py":
             if term:
                 pyside.append((i, term, obs))
         else:
             groups.setdefault(fn, []).append((c["fam"], i, term, obs))
-        key = c["kind"] + ":" + (json.dumps(obs) if c["kind"] != "repr" else
-                                 "/".join("indented" if v.startswith(("Base(\n", "Sub(\n", "Plain(\n")) else "one-line"
+        key = c["kind"] + ":" + (json.dumps(obs) if c["kind"] != "repr" or fn == "py" and term else
+                                 "/".join("indented" if v.startswith(("Base(\n", "Sub(\n", "Plain(\n", "Leaf(\n", "PlainSub(\n")) else "one-line"
                                           for v in obs.values()))
+        if fn == "py" and term:
+            key = c["kind"] + ":" + ("instance cannot be built" if is_build_failure(obs) else "not evaluated")
         STATS[key] = STATS.get(key, 0) + 1
     shards, index = [], []
     for fn, items in groups.items():
@@ -977,6 +1058,57 @@ def one_diff_pairs(fam, cname="Base", blank_alts=True, full=True, max_blanks=Non
                 sp[a["name"]] = blanks_for(a["kind"])[bi - 1]
                 out.append(({"cls": cname, "attrs": sp}, {"cls": cname, "attrs": sb}, a["name"]))
     return out
+
+
+def position_states(fam, cname, only=None):
+    """the state holding the first value of every attribute and, for every attribute position (own,
+    inherited, re-declared), the state holding the second value there; init=False attributes stay at
+    their default (so that every state can be re-constructed from its own values)"""
+    alist = attrs_of(fam, cname)
+    base = {a["name"]: values_for(a["kind"], None)[0] if a.get("init", True) else ["default"] for a in alist}
+    out = [{"cls": cname, "attrs": dict(base)}]
+    for a in alist:
+        if not a.get("init", True) or (only is not None and a["name"] not in only):
+            continue
+        st = dict(base)
+        st[a["name"]] = values_for(a["kind"], None)[1]
+        out.append({"cls": cname, "attrs": st})
+    return out
+
+
+def gen_hier_family(rng, i):
+    """a two-level hierarchy: Base <- Sub <- Leaf (spec classes), PlainSub(Sub), Plain(Base); Sub and
+    Leaf re-default / re-declare attributes they inherit (from the root and from the class in the
+    middle), so that the owner of an attribute is the root, the middle or the leaf class."""
+    fam = gen_family(rng)
+    if not fam["sub_attrs"]:
+        fam["sub_attrs"] = [{"name": "b0", "kind": rng.choice(["int", "str", "list"]), "compare": True, "repr": True,
+                             "default": rng.random() < 0.7, "init": True}]
+    cand = [a for a in fam["attrs"] if a["kind"] not in ("clsfun", "klist", "kset")]
+    form = ("annot", "attr", None)[i % 3]
+    if form and cand:                     # Sub certainly RE-DECLARES (owns) one inherited attribute
+        a = cand[i % len(cand)]
+        fam["sub_redefault"] = [r for r in fam["sub_redefault"] if r["name"] != a["name"]]
+        rd = {"name": a["name"], "form": form}
+        if form == "attr":
+            rd.update(compare=True, repr=True, init=True)
+        fam["sub_redefault"].append(rd)
+    k = rng.choice(["int", "str", "list", "opt", "dict"])
+    fam["leaf_attrs"] = [{"name": "c0", "kind": k, "compare": rng.random() < 0.8, "repr": rng.random() < 0.8,
+                          "default": rng.random() < 0.6, "init": True}]
+    lcand = [a for a in fam["attrs"] + fam["sub_attrs"] if a["kind"] not in ("clsfun", "klist", "kset")]
+    rds = []
+    if i % 4 != 3:                        # every fourth Leaf only adds its own attribute
+        for a in rng.sample(lcand, min(len(lcand), rng.choice((1, 2)))):
+            lform = rng.choice(("plain", "annot", "annot", "attr"))
+            rd = {"name": a["name"], "form": lform}
+            if lform == "attr":
+                rd.update(compare=rng.random() < 0.7, repr=rng.random() < 0.7, init=True)
+                if rng.random() < 0.5:
+                    rd["via"] = "field"
+            rds.append(rd)
+    fam["leaf_redefault"] = rds
+    return fam
 
 
 def rebuildable(fam, st):
@@ -1227,6 +1359,13 @@ def generate(rng, tier):
                                                                           if v[0] not in ("default", "deleted", "meth", "inner")}]], "root": 0}})
                     a, b = sts[0], sts[1]
                     cases.append({"kind": "tri", "fam": fid, "a": a, "b": json.loads(json.dumps(a)), "c": b, "gen": "equal-triple"})
+                    # re-construction / copy with the SECOND value at each position: the re-declared attribute,
+                    # the inherited ones, the own one -- for Sub, for the spec class below it (the attribute is
+                    # owned by the class in the middle) and for the plain class below it
+                    for cname, only in (("Sub", None), ("Leaf", ("a1", "b0")), ("PlainSub", ("a1", "b0"))):
+                        for st in position_states(fam, cname, only):
+                            cases.append({"kind": "rb", "fam": fid, "a": st, "gen": "position-rebuild"})
+                        cases.append({"kind": "dc", "fam": fid, "a": st, "gen": "position-deepcopy"})
     # pairs that differ in exactly one attribute: every position, every combination of
     # kinds before it (all kind tuples of length <= 3 in thorough; sampled in quick)
     combos = [list(t) for n in (1, 2, 3) for t in itertools.product(KINDS, repeat=n)]
@@ -1258,6 +1397,37 @@ def generate(rng, tier):
                 for cname in ("Sub", "Plain"):
                     for a, b, which in one_diff_pairs(fam, cname, **(lean or dict(blank_alts=rich, full=rich))):
                         cases.append({"kind": "eq", "fam": fid, "a": a, "b": b, "gen": "one-diff-sub", "diff": which})
+    # two levels of spec and plain subclassing (Leaf(Sub(Base)), PlainSub(Sub(Base))), attributes owned
+    # by the root / the middle / the leaf class: pairs and triples across the hierarchy, one-difference
+    # pairs, copy and re-construction for every attribute position
+    for i in range(16 if quick else 80):
+        fam = gen_hier_family(rng, i)
+        fid = add_family(fam)
+        pool = []
+        for cname, n in (("Sub", 3), ("Leaf", 3), ("PlainSub", 3), ("Plain", 1), ("Base", 1)):
+            pool += [gen_state(rng, fam, cname) for _ in range(n if quick else n + 2)]
+        pool += [json.loads(json.dumps(s)) for s in rng.sample(pool, 3)]
+        pairs = [(a, b) for a in pool for b in pool]
+        for a, b in rng.sample(pairs, 40 if quick else 150):
+            cases.append({"kind": "eq", "fam": fid, "a": a, "b": b, "gen": "hier-pair"})
+        triples = [(a, b, c) for a in pool for b in pool for c in pool]
+        for a, b, c in rng.sample(triples, 10 if quick else 60):
+            cases.append({"kind": "tri", "fam": fid, "a": a, "b": b, "c": c, "gen": "hier-triple"})
+        for cname in ("Leaf", "PlainSub"):
+            for a, b, which in one_diff_pairs(fam, cname, blank_alts=False, full=False, max_blanks=1):
+                cases.append({"kind": "eq", "fam": fid, "a": a, "b": b, "gen": "hier-one-diff", "diff": which})
+        for cname in ("Sub", "Leaf", "PlainSub", "Plain"):
+            for st in position_states(fam, cname):
+                cases.append({"kind": "rb", "fam": fid, "a": st, "gen": "hier-rebuild"})
+                if cname != "Sub" or not quick:
+                    cases.append({"kind": "dc", "fam": fid, "a": st, "gen": "hier-deepcopy"})
+        for st in [s for s in pool if s["cls"] in ("Leaf", "PlainSub")][:4 if quick else 8]:
+            cases.append({"kind": "dc", "fam": fid, "a": st, "gen": "hier-deepcopy"})
+            if rebuildable(fam, st):
+                cases.append({"kind": "rb", "fam": fid, "a": st, "gen": "hier-rebuild"})
+            cases.append({"kind": "repr", "fam": fid, "gen": "hier-repr-state",
+                          "graph": {"nodes": [["inst", st["cls"], {n: v for n, v in st["attrs"].items()
+                                                                  if v[0] not in ("default", "deleted", "meth", "inner")}]], "root": 0}})
     return fams, cases
 
 
@@ -1267,22 +1437,25 @@ def drop_attr(fam, case, name):
     fam2["attrs"] = [a for a in fam2["attrs"] if a["name"] != name]
     fam2["sub_attrs"] = [a for a in fam2.get("sub_attrs", []) if a["name"] != name]
     fam2["sub_redefault"] = [r for r in fam2.get("sub_redefault", []) if r["name"] != name]
+    for key in ("leaf_attrs", "leaf_redefault"):
+        if key in fam2:
+            fam2[key] = [r for r in fam2[key] if r["name"] != name]
     c2 = json.loads(json.dumps(case))
     for key in "abc":
         if key in c2:
             c2[key]["attrs"].pop(name, None)
     if "graph" in c2:
         for nd in c2["graph"]["nodes"]:
-            if nd[0] == "inst" and nd[1] in ("Base", "Sub", "Plain"):
+            if nd[0] == "inst" and nd[1] in FAMILY_CLASSES:
                 nd[2].pop(name, None)
     return fam2, c2
 
 
-def shrink(fam, case, code):
+def shrink(fam, case, code, build_failure=False):
     if not fam["attrs"]:
         return fam, case
     for _ in range(8):
-        names = [a["name"] for a in fam["attrs"] + fam.get("sub_attrs", [])]
+        names = [a["name"] for a in fam["attrs"] + fam.get("sub_attrs", []) + fam.get("leaf_attrs", [])]
         if len(fam["attrs"]) <= 1:
             break
         cands = [drop_attr(fam, case, n) for n in names]
@@ -1296,7 +1469,8 @@ def shrink(fam, case, code):
                 if isinstance(e, (KeyboardInterrupt, SystemExit)):
                     raise
                 continue
-            if bad and bad[0][1] == code and not [l for l in logs if not l.startswith("class table")]:
+            if (bad and bad[0][1] == code and is_build_failure(bad[0][2]) == build_failure
+                    and not [l for l in logs if not l.startswith("class table")]):
                 hit = (f, c)
                 break
         if hit is None:
@@ -1312,8 +1486,31 @@ WHAT = {"eq": "==/!= of two instances", "tri": "transitivity of == over three in
         "repr": "repr(x) (no exception; exactly the repr-enabled attributes in declaration order)"}
 
 
+def witness(fam, case):
+    """plain-Python rendering of what a dc / rb / eq case did (for the reader of a replay)"""
+    try:
+        F = Family(fam)
+        k = case["kind"]
+        if k in ("dc", "rb"):
+            x = F.instance(case["a"])
+            if k == "dc":
+                y, how = copy.deepcopy(x), "y = copy.deepcopy(x)"
+            else:
+                inits = [a["name"] for a in attrs_of(fam, case["a"]["cls"]) if a.get("init", True)]
+                kw = {n: getattr(x, n) for n in inits if hasattr(x, n)}
+                how = f"y = {type(x).__name__}(**{kw!r})"
+                y = type(x)(**kw)
+            return f"x = {x!r}; {how} = {y!r}; type(y) = {type(y).__name__}; y == x: {y == x}"[:1500]
+        if k == "eq":
+            a, b = F.instance(case["a"]), F.instance(case["b"])
+            return f"a = {a!r}; b = {b!r}; a == b: {a == b}; b == a: {b == a}"[:1500]
+    except Exception as e:
+        return f"{type(e).__name__}: {e}"[:500]
+    return None
+
+
 def describe(fam, case, code, obs):
-    return {"family": fam, "source": family_source(fam), "case": case, "code": code, "observed": obs,
+    return {"family": fam, "witness": witness(fam, case), "source": family_source(fam), "case": case, "code": code, "observed": obs,
             "meaning": MEANING.get(code, "?"), "replay": "bin/check C10 --replay <this file>"}
 
 
@@ -1397,19 +1594,33 @@ def main(tier, replay=None):
         bad, logs = evaluate(fams, cases)
     stats = dict(STATS)
     reported = set()
-    for i, code, obs in sorted(bad, key=lambda b: (-b[1], len(json.dumps(cases[b[0]]))))[:30]:
+    # law violations first (concrete verdicts of the oracle), then instances / families that could not
+    # be built, then model drift; one report per (kind, verdict, generator, flavour)
+    for i, code, obs in sorted(bad, key=lambda b: (-b[1], is_build_failure(b[2]), len(json.dumps(cases[b[0]])))):
         c = cases[i]
-        sig0 = (c["kind"], code, c.get("gen"))
+        bf = is_build_failure(obs)
+        sig0 = (c["kind"], code, c.get("gen"), bf)
         if sig0 in reported:
             continue
+        if len(reported) >= 10:
+            break
         reported.add(sig0)
-        fam, small = shrink(fams[c["fam"]], c, code)
+        fam, small = shrink(fams[c["fam"]], c, code, bf)
         small = dict(small, fam=0)
-        F = Family(fam)
-        obs2 = run_case(F, small)[2]
-        what = (f"{WHAT[c['kind']]}: {MEANING[code] if code in MEANING else code}; "
-                f"case={json.dumps({k: v for k, v in small.items() if k not in ('fam',)})[:400]} observed={json.dumps(obs2)[:300]}")
-        chk.violation(what, describe(fam, small, code, obs2), sig={"kind": c["kind"], "code": code},
+        try:
+            obs2 = run_case(Family(fam), small)[2]
+        except Exception:
+            obs2 = obs
+        if bf:
+            head = ("an instance of a generated class cannot be constructed (the library raised while the state was "
+                    f"built; needed for: {WHAT[c['kind']]})")
+        elif isinstance(obs2, dict) and "harness" in obs2:
+            head = f"{WHAT[c['kind']]}: the case could not be evaluated"
+        else:
+            head = f"{WHAT[c['kind']]}: {MEANING[code] if code in MEANING else code}"
+        what = (f"{head}; case={json.dumps({k: v for k, v in small.items() if k not in ('fam',)})[:400]} "
+                f"observed={json.dumps(obs2)[:300]}")
+        chk.violation(what, describe(fam, small, code, obs2), sig={"kind": "build" if bf else c["kind"], "code": code},
                       no_input=(code != 2))
     for lg in logs[:6]:
         head = ("the metadata the library built differs from the declared hierarchy: " if lg.startswith("class table")
